@@ -2138,6 +2138,13 @@ W_OUTSIDE = [
     ("return-value-in-void", "export function f(int a) -> void { return a; }"),
     ("store-float-to-int-parameter", "export function f(int a, float x) -> int { a = x; return a; }"),
     ("store-int-to-float-parameter", "export function f(int a, float x) -> float { x = a; return x * 0.5; }"),
+] + [
+    # integer literals at and beyond the edges of the 32-bit ranges, in every spelling: whatever is emitted has to be a valid
+    # i32.const immediate (or the literal is refused); inside the signed range the value has to come back
+    (f"int-literal;{text};{how}", f"export function f(int a) -> int {{ {body} }}")
+    for text in ("2147483647", "2147483648", "4294967295", "4294967296", "0x7FFFFFFF", "0x80000000", "0xFFFFFFFF", "0x100000000", "-2147483648", "-2147483649",
+                 "-4294967296", "99999999999", "037777777777", "1073741824", "-1073741825")
+    for how, body in (("returned", f"return {text};"), ("operand", f"return a + {text};"), ("compared", f"return a < {text};"), ("stored", f"int v = {text}; return v - a;"))
 ]
 
 
